@@ -1,8 +1,1667 @@
-//! C09 — not built yet.
+//! C09 — the NTT is the documented evaluation map, invertible, convolution-preserving.
+//!
+//! E1 sections:
+//!  * `transform`   per (N, q): construction data (root minimal and primitive, table orders, 1/N), the N unit
+//!                  vectors and a set of extreme vectors through the four transforms (exact / lazy, forward /
+//!                  inverse) against the evaluation map written out by its definition
+//!  * `full`        every vector of [0,q)^N, [0,2q)^N (inverse lazy domain), [0,4q)^N (forward lazy domain)
+//!                  for tiny (N, q)
+//!  * `convolution` dyadic products of transforms vs. the naive negacyclic product (all unit pairs, extreme
+//!                  pairs, all residue pairs, all vector pairs for N = 2), negacyclic shifts / monomials
+//!  * `wrappers`    the polysmallmod `_p` / `_ps` forms over several moduli and polynomials
+//!  * `roots`       hook H3: every first random draw (and every second draw after a failing first one) gives
+//!                  the same root — the minimal primitive 2N-th root found by brute force
+//!  * `contexts`    two independently constructed contexts (different scripted entropy and draws) and a
+//!                  direct `NTTTables::new` hold identical tables and transform identically
+
 use crate::engine::*;
+use crate::he::{self, ParamSpec, Scheme};
+use crate::refmodel::bigu::*;
+use crate::refmodel::ntt as rn;
+use crate::refmodel::poly as rp;
+use heathcliff::util::{self as hu, NTTTables};
+use heathcliff::verif_hooks::{self as vh, polysmallmod as pm};
+use heathcliff::Modulus;
+use serde::{Deserialize, Serialize};
+use std::collections::BTreeSet;
 
-pub fn describe(_rep: &Report) {}
+pub fn describe(rep: &Report) {
+    rep.set_rule(
+        "case = (log2 N, prime q ≡ 1 mod 2N, part); a part loops over its whole alphabet (a block of unit vectors x \
+         coefficient classes x the four transforms; every vector of a tiny space; every first / second random draw). \
+         traces_validated_against_impl = library calls compared with the definition-level reference. non-trivial = the \
+         case compared at least one call (for lazy forms: the outcome class records the largest multiple of q seen in an \
+         output, so that 'lazy' outputs really leave [0,q)).",
+    );
+    rep.assume("reference = evaluation a(psi^(2*brv(i)+1)) written out with a power table and u128 accumulators; cross-checked in every `tables` case with N <= 64 against refmodel::poly::naive_ntt / pmul (Horner evaluation, schoolbook product)");
+    rep.assume("psi is required to be the minimal primitive 2N-th root: brute force over [1,q) for q < 2^20, minimum over the odd powers of an independently found element of order 2N above (cyclic unit group of a prime field)");
+    rep.assume("documented ranges taken as: forward (lazy and exact) input [0,4q), lazy output [0,4q); inverse input [0,2q), lazy output [0,2q) (comments in ntt.rs, the final corrections of the exact forms, and the SEAL documentation the file is ported from); dyadic products on reduced operands");
+    rep.assume("moduli per degree: the two smallest primes = 1 mod 2N and the largest one of 13, 20, 30, 40, 50, 59, 60, 61 bits; not all NTT-friendly primes");
+    rep.assume("all-vectors enumeration only for tiny (N,q); beyond that unit vectors (linearity) + extreme vectors at the range maxima");
+    rep.assume("composite moduli are outside the property's domain: observed, never judged");
+    rep.assume("the scripted event 'all 100 draws of try_primitive_root fail' (probability 2^-100 with real randomness) is not enumerated");
 
-pub fn sections(_cfg: &RunCfg) -> Vec<Box<dyn AnySection>> {
-    vec![]
+    // composite moduli: observation only (the 'minimal root over the odd powers of a random root' is not unique there)
+    for (k, q) in [(1usize, 85u64), (1, 221), (2, 1649), (1, 65)] {
+        let mut roots: BTreeSet<u64> = BTreeSet::new();
+        let mut refused = 0u64;
+        let mut panics = 0u64;
+        for r in 0..q {
+            let mut script = vec![r];
+            script.extend(2..100u64);
+            let res = guard(|| {
+                vh::set_nt_draws(Some(filler(q, 64)));
+                let m = Modulus::new(q);
+                vh::set_nt_draws(Some(script.clone()));
+                NTTTables::new(k, &m).map(|t| t.root()).map_err(|e| e.to_string())
+            });
+            match res {
+                Ok(Ok(root)) => {
+                    roots.insert(root);
+                }
+                Ok(Err(_)) => refused += 1,
+                Err(_) => panics += 1,
+            }
+        }
+        vh::set_nt_draws(None);
+        rep.observe(format!(
+            "composite modulus q={q}, N={}: over all {q} first draws NTTTables::new returned {} distinct roots {:?}, refused {refused}, panicked {panics} (outside the domain of C09; see C13)",
+            1 << k,
+            roots.len(),
+            roots.iter().take(8).collect::<Vec<_>>()
+        ));
+    }
+}
+
+// ------------------------------------------------------------------------------------------
+// common helpers
+// ------------------------------------------------------------------------------------------
+
+/// deterministic filler for the number-theory draw script (so that no real randomness is consumed)
+fn filler(tag: u64, len: usize) -> Vec<u64> {
+    (0..len as u64).map(|i| h64(&(tag, i, "c09-draw"))).collect()
+}
+
+fn build(k: usize, q: u64, tag: u64) -> Result<(Modulus, NTTTables), String> {
+    match guard(|| {
+        vh::set_nt_draws(Some(filler(tag, 256)));
+        let m = Modulus::new(q);
+        let r = NTTTables::new(k, &m).map_err(|e| e.to_string());
+        r.map(|t| (m, t))
+    }) {
+        Ok(Ok(x)) => Ok(x),
+        Ok(Err(e)) => Err(format!("refused: {e}")),
+        Err(p) => Err(format!("panic: {p}")),
+    }
+}
+
+fn build_fail(sec: &str, k: usize, q: u64, e: &str) -> CaseOut {
+    CaseOut::fail(
+        format!("{sec}:construct:{}", if e.starts_with("panic") { format!("panic:{}", panic_class(e)) } else { "refused".to_string() }),
+        format!("NTTTables::new({k}, {q}) succeeds (q prime, q = 1 mod {})", 2usize << k),
+        e.to_string(),
+    )
+}
+
+fn fmtv(v: &[u64]) -> String {
+    if v.len() <= 16 {
+        format!("{v:?}")
+    } else {
+        format!("[{} values, first {:?} .. last {:?}, h={:016x}]", v.len(), &v[..6], &v[v.len() - 3..], h64(v))
+    }
+}
+
+fn first_diff(out: &[u64], reference: &[u64], q: u64, out_mult: u64) -> String {
+    for (i, (&o, &r)) in out.iter().zip(reference).enumerate() {
+        if o >= out_mult * q || o % q != r {
+            return format!("index {i}: got {o} (= {} mod q, {}q+..), reference {r}; output {}", o % q, o / q, fmtv(out));
+        }
+    }
+    "no difference".into()
+}
+
+fn quotient_of(x: u64, q: u64) -> u64 {
+    (((x as u128) << 64) / q as u128) as u64
+}
+
+fn fingerprint(t: &NTTTables) -> u64 {
+    let rp: Vec<(u64, u64)> = t.get_root_powers().iter().map(|o| (o.operand, o.quotient)).collect();
+    let ip: Vec<(u64, u64)> = t.get_inv_root_powers().iter().map(|o| (o.operand, o.quotient)).collect();
+    let d = t.inv_degree_modulo();
+    h64(&(t.root(), rp, ip, d.operand, d.quotient, t.coeff_count(), t.coeff_count_power()))
+}
+
+#[derive(Clone, Copy, Debug, PartialEq, Eq)]
+enum Fun {
+    Fwd,
+    FwdLazy,
+    Inv,
+    InvLazy,
+}
+const FUNS: [Fun; 4] = [Fun::Fwd, Fun::FwdLazy, Fun::Inv, Fun::InvLazy];
+
+impl Fun {
+    fn name(self) -> &'static str {
+        match self {
+            Fun::Fwd => "ntt_negacyclic_harvey",
+            Fun::FwdLazy => "ntt_negacyclic_harvey_lazy",
+            Fun::Inv => "inverse_ntt_negacyclic_harvey",
+            Fun::InvLazy => "inverse_ntt_negacyclic_harvey_lazy",
+        }
+    }
+    fn forward(self) -> bool {
+        matches!(self, Fun::Fwd | Fun::FwdLazy)
+    }
+    /// documented input range [0, in_mult*q)
+    fn in_mult(self) -> u64 {
+        if self.forward() {
+            4
+        } else {
+            2
+        }
+    }
+    /// documented output range [0, out_mult*q)
+    fn out_mult(self) -> u64 {
+        match self {
+            Fun::Fwd | Fun::Inv => 1,
+            Fun::FwdLazy => 4,
+            Fun::InvLazy => 2,
+        }
+    }
+    fn apply(self, t: &NTTTables, v: &mut [u64]) {
+        match self {
+            Fun::Fwd => t.ntt_negacyclic_harvey(v),
+            Fun::FwdLazy => t.ntt_negacyclic_harvey_lazy(v),
+            Fun::Inv => t.inverse_ntt_negacyclic_harvey(v),
+            Fun::InvLazy => t.inverse_ntt_negacyclic_harvey_lazy(v),
+        }
+    }
+}
+
+/// Runs transforms on the real tables and judges them; keeps the counters of one case.
+struct Run<'a> {
+    sec: &'static str,
+    q: u64,
+    t: &'a NTTTables,
+    steps: u64,
+    /// largest floor(output / q) seen in a lazy output
+    lazy_top: u64,
+}
+
+impl<'a> Run<'a> {
+    fn new(sec: &'static str, q: u64, t: &'a NTTTables) -> Self {
+        Run { sec, q, t, steps: 0, lazy_top: 0 }
+    }
+
+    /// apply `f` to `input`, compare with `reference` (reduced values); returns the raw output
+    fn tj(&mut self, f: Fun, class: &str, input: &[u64], reference: &[u64]) -> Result<Vec<u64>, CaseOut> {
+        let mut v = input.to_vec();
+        let (t, q) = (self.t, self.q);
+        if let Err(p) = guard(|| f.apply(t, &mut v)) {
+            return Err(CaseOut::fail(
+                format!("{}:{}:{class}:panic:{}", self.sec, f.name(), panic_class(&p)),
+                format!("N={} q={q} input {} (inside [0,{}q)) is transformed without panic", input.len(), fmtv(input), f.in_mult()),
+                p,
+            ));
+        }
+        self.steps += 1;
+        let m = f.out_mult();
+        let (range_bad, wrong);
+        if m == 1 {
+            wrong = v[..] != reference[..];
+            range_bad = wrong && v.iter().any(|&x| x >= q);
+        } else {
+            let top = v.iter().copied().max().unwrap_or(0);
+            range_bad = top >= m * q;
+            self.lazy_top = self.lazy_top.max(top / q);
+            // reduce by conditional subtractions (valid below 4q; anything above is out of range anyway)
+            wrong = v.iter().zip(reference).any(|(&o, &r)| {
+                let mut x = o;
+                if x >= 2 * q {
+                    x -= 2 * q;
+                }
+                if x >= q {
+                    x -= q;
+                }
+                x != r && o % q != r
+            });
+        }
+        if range_bad || wrong {
+            let what = if wrong { "wrong" } else { "range" };
+            return Err(CaseOut::fail(
+                format!("{}:{}:{class}:{what}", self.sec, f.name()),
+                format!(
+                    "N={} q={q} input {}: output {} {}",
+                    input.len(),
+                    fmtv(input),
+                    if m == 1 { "equal to".to_string() } else { format!("inside [0,{m}q) and congruent to") },
+                    fmtv(reference)
+                ),
+                first_diff(&v, reference, q, m),
+            ));
+        }
+        Ok(v)
+    }
+}
+
+fn fold(r: Result<CaseOut, CaseOut>) -> CaseOut {
+    match r {
+        Ok(o) => o,
+        Err(o) => o,
+    }
+}
+
+/// moduli used for degree 2^k
+fn moduli_for(k: usize) -> Vec<u64> {
+    let two_n = 2u64 << k;
+    let mut v = vec![];
+    let mut x = two_n + 1;
+    while v.len() < 2 {
+        if is_prime_u64(x) {
+            v.push(x);
+        }
+        x += two_n;
+    }
+    for bits in [13usize, 20, 30, 40, 50, 59, 60, 61] {
+        if let Some(&p) = primes_1_mod(two_n, bits, 1).first() {
+            v.push(p);
+        }
+    }
+    v.sort();
+    v.dedup();
+    v
+}
+
+/// extreme vectors of [0, mult*q)^n
+fn extreme_vectors(n: usize, q: u64, mult: u64, seed: u64) -> Vec<(&'static str, Vec<u64>)> {
+    let r = mult * q;
+    let top = r - 1;
+    let mut v: Vec<(&'static str, Vec<u64>)> = vec![];
+    let mut consts = vec![top, q - 1, 1];
+    if mult > 1 {
+        consts.extend([q, q + 1]);
+    }
+    if mult > 2 {
+        consts.extend([2 * q - 1, 2 * q, 2 * q + 1, 3 * q]);
+    }
+    consts.sort();
+    consts.dedup();
+    for c in consts {
+        v.push(("const", vec![c; n]));
+    }
+    v.push(("alt", (0..n).map(|i| if i % 2 == 0 { top } else { 0 }).collect()));
+    v.push(("alt", (0..n).map(|i| if i % 2 == 1 { top } else { 0 }).collect()));
+    v.push(("half", (0..n).map(|i| if i < n / 2 { top } else { 0 }).collect()));
+    v.push(("half", (0..n).map(|i| if i >= n / 2 { top } else { 0 }).collect()));
+    v.push(("ramp", (0..n).map(|i| ((i as u128 * top as u128) / (n as u128 - 1).max(1)) as u64).collect()));
+    v.push(("generic", (0..n).map(|i| h64(&(seed, i as u64, q, "c09-fill")) % r).collect()));
+    v.push(("neartop", (0..n).map(|i| top - h64(&(seed, i as u64, q, "c09-fill2")) % q.min(1 << 20)).collect()));
+    v
+}
+
+// ------------------------------------------------------------------------------------------
+// section `transform`
+// ------------------------------------------------------------------------------------------
+
+#[derive(Serialize, Deserialize, Clone, Debug)]
+pub enum TPart {
+    /// construction data of the tables
+    Tables,
+    /// unit vectors X^j, j in lo..hi
+    Units { lo: usize, hi: usize },
+    /// unit vectors X^j for j in {0..3, 2^i - 1, 2^i, 2^i + 1, N-2, N-1} (large N only)
+    UnitsSparse,
+    /// extreme vectors
+    Extremes,
+}
+
+#[derive(Serialize, Deserialize, Clone, Debug)]
+pub struct TCase {
+    pub k: usize,
+    pub q: u64,
+    pub part: TPart,
+}
+
+fn check_transform(c: &TCase, seed: u64) -> CaseOut {
+    let tag = h64(&(seed, c.k as u64, c.q, "transform"));
+    he::env_real(seed, tag);
+    let (k, q) = (c.k, c.q);
+    let n = 1usize << k;
+    if !is_prime_u64(q) || (q - 1) % (2 * n as u64) != 0 {
+        return CaseOut::skip("modulus not a prime = 1 mod 2N");
+    }
+    let (m, t) = match build(k, q, tag) {
+        Ok(x) => x,
+        Err(e) => return build_fail("transform", k, q, &e),
+    };
+    let out = fold(match &c.part {
+        TPart::Tables => tables_part(k, q, &m, &t, tag, seed),
+        TPart::Units { lo, hi } => units_part(k, q, &t, (*lo..(*hi).min(n)).collect()),
+        TPart::UnitsSparse => {
+            let mut js: Vec<usize> = vec![0, 1, 2, 3, n - 2, n - 1];
+            for i in 1..k {
+                js.extend([(1 << i) - 1, 1 << i, (1 << i) + 1]);
+            }
+            js.retain(|&j| j < n);
+            js.sort();
+            js.dedup();
+            units_part(k, q, &t, js)
+        }
+        TPart::Extremes => extremes_part(k, q, &t, seed),
+    });
+    vh::set_nt_draws(None);
+    out
+}
+
+fn expected_root(n: usize, q: u64) -> u64 {
+    let fast = rn::min_primitive_root_2n_cyclic(n, q).expect("prime q = 1 mod 2N has a primitive 2N-th root");
+    if q < (1 << 20) {
+        let brute = rp::min_primitive_root_2n(n, q).expect("brute force finds a primitive root");
+        assert_eq!(brute, fast, "reference inconsistent: brute-force minimal root vs. minimum over odd powers (N={n}, q={q})");
+    }
+    fast
+}
+
+fn tables_part(k: usize, q: u64, m: &Modulus, t: &NTTTables, tag: u64, seed: u64) -> Result<CaseOut, CaseOut> {
+    let n = 1usize << k;
+    let mut steps = 0u64;
+    let psi = t.root();
+    let exp = expected_root(n, q);
+    steps += 1;
+    if psi != exp {
+        return Err(CaseOut::fail(
+            "transform:root:not-minimal",
+            format!("N={n} q={q}: root() = {exp} (smallest x with x^N = -1)"),
+            format!("{psi} (x^N = {})", pow_mod(psi, n as u64, q)),
+        ));
+    }
+    if t.coeff_count() != n || t.coeff_count_power() != k {
+        return Err(CaseOut::fail("transform:tables:size", format!("coeff_count={n} power={k}"), format!("coeff_count={} power={}", t.coeff_count(), t.coeff_count_power())));
+    }
+    // table orders
+    let ptab = rn::power_table(psi, n, q);
+    let (rpw, ipw) = (t.get_root_powers(), t.get_inv_root_powers());
+    if rpw.len() != n || ipw.len() != n {
+        return Err(CaseOut::fail("transform:tables:size", format!("tables of length {n}"), format!("{} / {}", rpw.len(), ipw.len())));
+    }
+    for i in 0..n {
+        let slot = rp::bit_reverse(i, k as u32);
+        let e = ptab[i];
+        steps += 1;
+        if rpw[slot].operand != e || rpw[slot].quotient != quotient_of(e, q) {
+            return Err(CaseOut::fail(
+                "transform:tables:root_powers",
+                format!("N={n} q={q} psi={psi}: root_powers[brv({i})={slot}] = (psi^{i} = {e}, floor(2^64*{e}/q) = {})", quotient_of(e, q)),
+                format!("({}, {})", rpw[slot].operand, rpw[slot].quotient),
+            ));
+        }
+        // i-th slot of the inverse table stores the (brv(i-1)+1)-th power of psi^-1; slot 0 stores 1
+        let (islot, ie) = if i == 0 { (0, 1 % q) } else { (i, ptab[2 * n - (rp::bit_reverse(i - 1, k as u32) + 1)]) };
+        if ipw[islot].operand != ie || ipw[islot].quotient != quotient_of(ie, q) {
+            return Err(CaseOut::fail(
+                "transform:tables:inv_root_powers",
+                format!("N={n} q={q} psi={psi}: inv_root_powers[{islot}] = psi^-(brv({islot}-1)+1) = {ie} with quotient {}", quotient_of(ie, q)),
+                format!("({}, {})", ipw[islot].operand, ipw[islot].quotient),
+            ));
+        }
+    }
+    let ninv = inv_mod_u64(n as u64 % q, q).unwrap();
+    let d = t.inv_degree_modulo();
+    steps += 1;
+    if d.operand != ninv || d.quotient != quotient_of(ninv, q) {
+        return Err(CaseOut::fail("transform:tables:inv_degree", format!("N^-1 mod {q} = {ninv}, quotient {}", quotient_of(ninv, q)), format!("({}, {})", d.operand, d.quotient)));
+    }
+    // an independently constructed second table (different draws) and create_ntt_tables
+    let fp = fingerprint(t);
+    let second = guard(|| {
+        vh::set_nt_draws(Some(filler(tag ^ 0x5EC0_4D, 256)));
+        let m2 = Modulus::new(q);
+        let a = NTTTables::new(k, &m2).map(|x| fingerprint(&x)).map_err(|e| e.to_string());
+        let b = NTTTables::create_ntt_tables(k, &[m2, *m]).map(|v| v.iter().map(fingerprint).collect::<Vec<_>>());
+        (a, b)
+    });
+    steps += 2;
+    match second {
+        Ok((Ok(a), Ok(b))) if a == fp && b == vec![fp, fp] => {}
+        other => {
+            return Err(CaseOut::fail(
+                "transform:tables:second-construction-differs",
+                format!("N={n} q={q}: NTTTables::new / create_ntt_tables under other random draws give identical tables (fingerprint {fp:016x})"),
+                format!("{other:?}"),
+            ))
+        }
+    }
+    // a degree the modulus does not support must be refused
+    let mut kk = k + 1;
+    while (q - 1) % (2u64 << kk) == 0 {
+        kk += 1;
+    }
+    if kk <= 17 {
+        steps += 1;
+        match guard(|| NTTTables::new(kk, m).map(|x| x.root()).map_err(|e| e.to_string())) {
+            Ok(Err(_)) => {}
+            Ok(Ok(r)) => {
+                return Err(CaseOut::fail(
+                    "transform:construct:accepts-unsupported-degree",
+                    format!("NTTTables::new({kk}, {q}) is refused: 2^{} does not divide q-1, no primitive root exists", kk + 1),
+                    format!("Ok, root {r}"),
+                ))
+            }
+            Err(p) => {
+                return Err(CaseOut::fail(format!("transform:construct:unsupported-degree:panic:{}", panic_class(&p)), "Err(..) for an unsupported degree", p));
+            }
+        }
+    }
+    // reference self-consistency (definition with accumulators vs. Horner evaluation / schoolbook product)
+    if n <= 64 {
+        for (_, a) in extreme_vectors(n, q, 1, seed) {
+            let d1 = rn::ntt_by_definition(&a, &ptab, q);
+            assert_eq!(d1, rp::naive_ntt(&a, psi, q), "reference inconsistent: ntt_by_definition vs naive_ntt (N={n}, q={q})");
+            assert_eq!(rn::intt_by_definition(&d1, &ptab, q), a, "reference inconsistent: intt_by_definition does not invert (N={n}, q={q})");
+            let b: Vec<u64> = a.iter().rev().map(|&x| (x + 1) % q).collect();
+            assert_eq!(rn::negacyclic_mul(&a, &b, q), rp::pmul(&a, &b, q), "reference inconsistent: negacyclic_mul vs pmul (N={n}, q={q})");
+            for j in [0, n / 2, n - 1] {
+                let mut u = vec![0u64; n];
+                u[j] = q - 1;
+                assert_eq!(rn::ntt_unit(j, q - 1, n, &ptab, q), rp::naive_ntt(&u, psi, q), "reference inconsistent: ntt_unit");
+                assert_eq!(rn::intt_unit(j, q - 1, n, &ptab, q), rn::intt_by_definition(&u, &ptab, q), "reference inconsistent: intt_unit");
+            }
+        }
+    }
+    Ok(CaseOut::pass(true, h64(&("tables", k, 64 - q.leading_zeros())), steps))
+}
+
+fn units_part(k: usize, q: u64, t: &NTTTables, js: Vec<usize>) -> Result<CaseOut, CaseOut> {
+    let n = 1usize << k;
+    let psi = t.root();
+    if pow_mod(psi, n as u64, q) != q - 1 {
+        return Err(CaseOut::fail("transform:root:not-primitive", format!("root()^N = -1 mod {q}"), format!("root {psi}")));
+    }
+    let ptab = rn::power_table(psi, n, q);
+    let ninv = inv_mod_u64(n as u64 % q, q).unwrap();
+    let ptab_n: Vec<u64> = ptab.iter().map(|&p| mul_mod(p, ninv, q)).collect();
+    let mut run = Run::new("transform", q, t);
+    for j in js {
+        for (c, class) in [(1u64, "unit"), (q - 1, "unit"), (4 * q - 1, "unit-lazymax"), (2 * q - 1, "unit-lazymax")] {
+            // from N = 4096 on the coefficient -1 is exercised through its lazy representatives 4q-1 / 2q-1 only
+            if k >= 12 && c == q - 1 {
+                continue;
+            }
+            let mut x = vec![0u64; n];
+            x[j] = c;
+            for f in FUNS {
+                if c >= f.in_mult() * q || (c == 2 * q - 1 && f.forward()) {
+                    continue;
+                }
+                // c = +-1 mod q: the image of c*X^j is a column of powers (forward) / of N^-1-scaled inverse powers, up to sign
+                let tab = if f.forward() { &ptab } else { &ptab_n };
+                let neg = c % q == q - 1;
+                let reference: Vec<u64> = (0..n)
+                    .map(|i| {
+                        let e = ((2 * rp::bit_reverse(if f.forward() { i } else { j }, k as u32) + 1) * if f.forward() { j } else { i }) & (2 * n - 1);
+                        let p = tab[if f.forward() { e } else { (2 * n - e) & (2 * n - 1) }];
+                        if neg && p != 0 {
+                            q - p
+                        } else {
+                            p
+                        }
+                    })
+                    .collect();
+                if n <= 32 || (j & (j + 1)) == 0 {
+                    // tie the lookup form to the refmodel functions
+                    let slow = if f.forward() { rn::ntt_unit(j, c, n, &ptab, q) } else { rn::intt_unit(j, c, n, &ptab, q) };
+                    assert_eq!(reference, slow, "reference inconsistent: unit image by lookup vs refmodel::ntt (N={n}, q={q}, j={j})");
+                }
+                let out = run.tj(f, class, &x, &reference)?;
+                // round trips on the dense image
+                if c < q {
+                    match f {
+                        Fun::Fwd => {
+                            run.tj(Fun::Inv, "roundtrip-fwd-inv", &out, &x)?;
+                        }
+                        Fun::InvLazy => {
+                            run.tj(Fun::Fwd, "roundtrip-invlazy-fwd", &out, &x)?;
+                        }
+                        _ => {}
+                    }
+                }
+            }
+        }
+    }
+    Ok(CaseOut::pass(run.steps > 0 && run.lazy_top >= 2, h64(&("units", k, 64 - q.leading_zeros(), run.lazy_top)), run.steps))
+}
+
+fn extremes_part(k: usize, q: u64, t: &NTTTables, seed: u64) -> Result<CaseOut, CaseOut> {
+    let n = 1usize << k;
+    let psi = t.root();
+    if pow_mod(psi, n as u64, q) != q - 1 {
+        return Err(CaseOut::fail("transform:root:not-primitive", format!("root()^N = -1 mod {q}"), format!("root {psi}")));
+    }
+    let ptab = rn::power_table(psi, n, q);
+    let mut run = Run::new("transform", q, t);
+    for mult in [1u64, 2, 4] {
+        for (class, x) in extreme_vectors(n, q, mult, seed) {
+            let class = if mult == 1 { class.to_string() } else { format!("{class}-lazy{mult}q") };
+            let fref = rn::ntt_by_definition(&x, &ptab, q);
+            let iref = if mult <= 2 { rn::intt_by_definition(&x, &ptab, q) } else { vec![] };
+            for f in FUNS {
+                if mult > f.in_mult() || (mult == 2 && f.forward()) {
+                    // mult == 2 vectors are a subset class of the 4q range for the forward forms: covered by mult == 4
+                    continue;
+                }
+                let reference = if f.forward() { &fref } else { &iref };
+                let out = run.tj(f, &class, &x, reference)?;
+                let xr: Vec<u64> = x.iter().map(|&v| v % q).collect();
+                match f {
+                    Fun::Fwd => {
+                        run.tj(Fun::Inv, "roundtrip-fwd-inv", &out, &xr)?;
+                        run.tj(Fun::InvLazy, "roundtrip-fwd-invlazy", &out, &xr)?;
+                    }
+                    Fun::Inv => {
+                        run.tj(Fun::Fwd, "roundtrip-inv-fwd", &out, &xr)?;
+                    }
+                    Fun::InvLazy => {
+                        // a lazy inverse output is a legal input of both forward forms
+                        run.tj(Fun::Fwd, "roundtrip-invlazy-fwd", &out, &xr)?;
+                        run.tj(Fun::FwdLazy, "roundtrip-invlazy-fwdlazy", &out, &xr)?;
+                    }
+                    Fun::FwdLazy => {}
+                }
+            }
+        }
+    }
+    Ok(CaseOut::pass(run.steps > 0 && run.lazy_top >= 2, h64(&("extremes", k, 64 - q.leading_zeros(), run.lazy_top)), run.steps))
+}
+
+// ------------------------------------------------------------------------------------------
+// section `full`: every vector of a tiny space
+// ------------------------------------------------------------------------------------------
+
+#[derive(Serialize, Deserialize, Clone, Debug)]
+pub struct FCase {
+    pub k: usize,
+    pub q: u64,
+    /// coordinates lie in [0, mult*q): 1 = all transforms + round trips, 2 = inverse forms, 4 = forward forms
+    pub mult: u64,
+    /// values a coordinate takes (empty = every value of [0, mult*q))
+    #[serde(default)]
+    pub alphabet: Vec<u64>,
+    /// leading coordinates fixed by this case
+    pub prefix: Vec<u64>,
+}
+
+fn matvec(mat: &[Vec<u64>], x: &[u64], q: u64) -> Vec<u64> {
+    // entries and coordinates below 2^61, at most 32 terms: the u128 sum cannot overflow
+    mat.iter().map(|row| (row.iter().zip(x).map(|(&a, &b)| a as u128 * b as u128).sum::<u128>() % q as u128) as u64).collect()
+}
+
+fn check_full(c: &FCase, seed: u64) -> CaseOut {
+    let tag = h64(&(seed, c.k as u64, c.q, "full"));
+    he::env_real(seed, tag);
+    let (k, q, mult) = (c.k, c.q, c.mult);
+    let n = 1usize << k;
+    if !is_prime_u64(q) || (q - 1) % (2 * n as u64) != 0 || c.prefix.len() > n || n > 32 || (c.alphabet.is_empty() && q >= 1 << 12) {
+        return CaseOut::skip("not a prime = 1 mod 2N / space not tiny");
+    }
+    let (_m, t) = match build(k, q, tag) {
+        Ok(x) => x,
+        Err(e) => return build_fail("full", k, q, &e),
+    };
+    let out = fold((|| -> Result<CaseOut, CaseOut> {
+        let psi = t.root();
+        if psi != expected_root(n, q) {
+            return Err(CaseOut::fail("full:root:not-minimal", format!("N={n} q={q}: root {}", expected_root(n, q)), format!("{psi}")));
+        }
+        let ptab = rn::power_table(psi, n, q);
+        let ninv = inv_mod_u64(n as u64 % q, q).unwrap();
+        let bits = k as u32;
+        let mask = 2 * n - 1;
+        // forward matrix F[i][j] = psi^((2brv(i)+1) j), inverse matrix G[j][i] = N^-1 psi^(-(2brv(i)+1) j)
+        let fmat: Vec<Vec<u64>> = (0..n).map(|i| (0..n).map(|j| ptab[((2 * rp::bit_reverse(i, bits) + 1) * j) & mask]).collect()).collect();
+        let gmat: Vec<Vec<u64>> = (0..n)
+            .map(|j| (0..n).map(|i| mul_mod(ninv, ptab[(2 * n - (((2 * rp::bit_reverse(i, bits) + 1) * j) & mask)) & mask], q)).collect())
+            .collect();
+        let r = mult * q;
+        let alpha: Vec<u64> = if c.alphabet.is_empty() { (0..r).collect() } else { c.alphabet.clone() };
+        let free = n - c.prefix.len();
+        let mut x: Vec<u64> = c.prefix.clone();
+        x.resize(n, alpha[0]);
+        if x.iter().chain(alpha.iter()).any(|&v| v >= r) {
+            return Ok(CaseOut::skip("prefix / alphabet outside the range"));
+        }
+        let mut idx = vec![0usize; n];
+        let mut run = Run::new("full", q, &t);
+        let class = if c.alphabet.is_empty() { format!("all-vectors-{mult}q") } else { format!("alphabet-vectors-{mult}q") };
+        loop {
+            let xr: Vec<u64> = x.iter().map(|&v| v % q).collect();
+            if mult != 2 {
+                let fref = matvec(&fmat, &xr, q);
+                let out = run.tj(Fun::Fwd, &class, &x, &fref)?;
+                run.tj(Fun::FwdLazy, &class, &x, &fref)?;
+                if mult == 1 {
+                    run.tj(Fun::Inv, "all-vectors-roundtrip", &out, &x)?;
+                }
+            }
+            if mult != 4 {
+                let iref = matvec(&gmat, &xr, q);
+                run.tj(Fun::Inv, &class, &x, &iref)?;
+                let lz = run.tj(Fun::InvLazy, &class, &x, &iref)?;
+                if mult == 1 {
+                    run.tj(Fun::Fwd, "all-vectors-roundtrip", &lz, &x)?;
+                }
+            }
+            // odometer over the free coordinates (last coordinate fastest)
+            let mut pos = n;
+            loop {
+                if pos == n - free {
+                    // non-trivial: the lazy outputs really used the upper part of their range
+                    let nontrivial = run.lazy_top >= if mult == 4 { 2 } else { 1 };
+                    return Ok(CaseOut::pass(nontrivial, h64(&("full", k, 64 - q.leading_zeros(), mult, run.lazy_top)), run.steps));
+                }
+                pos -= 1;
+                idx[pos] += 1;
+                if idx[pos] < alpha.len() {
+                    x[pos] = alpha[idx[pos]];
+                    break;
+                }
+                idx[pos] = 0;
+                x[pos] = alpha[0];
+            }
+        }
+    })());
+    vh::set_nt_draws(None);
+    out
+}
+
+fn full_cases(thorough: bool) -> Vec<FCase> {
+    // (k, q, mult, alphabet)
+    let mut spaces: Vec<(usize, u64, u64, Vec<u64>)> = vec![];
+    // N = 2: every prime = 1 mod 4 below 128 (256 thorough), all three ranges
+    for q in (5..if thorough { 256u64 } else { 128 }).filter(|&q| q % 4 == 1 && is_prime_u64(q)) {
+        for mult in [1, 2, 4] {
+            spaces.push((1, q, mult, vec![]));
+        }
+    }
+    for (q, mult) in [(17u64, 1u64), (17, 2), (17, 4), (41, 1)] {
+        spaces.push((2, q, mult, vec![]));
+    }
+    if thorough {
+        spaces.extend([(2, 41, 2, vec![]), (2, 73, 1, vec![])]);
+    }
+    // boundary alphabets for every modulus of the `transform` list (incl. 61 bits):
+    // {0, 1, q-1, q, R-1}^N for N <= 4 (8 thorough), {0, 1, R-1}^N for N = 8, {0, R-1}^N for N = 16
+    for k in 1..=4usize {
+        for q in moduli_for(k) {
+            for mult in [1u64, 2, 4] {
+                let top = mult * q - 1;
+                let mut a = match k {
+                    1 | 2 => vec![0, 1, q - 1, q, top],
+                    3 => {
+                        if thorough {
+                            vec![0, 1, q - 1, q, top]
+                        } else {
+                            vec![0, 1, top]
+                        }
+                    }
+                    _ => vec![0, top],
+                };
+                a.retain(|&x| x <= top);
+                a.sort();
+                a.dedup();
+                spaces.push((k, q, mult, a));
+            }
+        }
+    }
+    let mut v = vec![];
+    for (k, q, mult, alphabet) in spaces {
+        let n = 1usize << k;
+        let vals: Vec<u64> = if alphabet.is_empty() { (0..mult * q).collect() } else { alphabet.clone() };
+        let r = vals.len() as f64;
+        // fix leading coordinates until the remaining space has at most 2^20 vectors
+        let mut plen = 0;
+        while r.powi((n - plen) as i32) > (1u64 << 20) as f64 {
+            plen += 1;
+        }
+        let mut prefixes: Vec<Vec<u64>> = vec![vec![]];
+        for _ in 0..plen {
+            prefixes = prefixes.iter().flat_map(|p| vals.iter().map(move |&x| p.iter().copied().chain([x]).collect())).collect();
+        }
+        for prefix in prefixes {
+            v.push(FCase { k, q, mult, alphabet: alphabet.clone(), prefix });
+        }
+    }
+    v
+}
+
+// ------------------------------------------------------------------------------------------
+// section `convolution`
+// ------------------------------------------------------------------------------------------
+
+#[derive(Serialize, Deserialize, Clone, Debug)]
+pub enum CPart {
+    /// X^i * X^j for i in lo..hi, all j, coefficients in {1, q-1}
+    UnitPairs { lo: usize, hi: usize },
+    /// extreme / generic operand pairs
+    Extremes,
+    /// negacyclic_shift / negacyclic_multiply_mononomial against X^s * a
+    Shifts,
+    /// dyadic product on all residue pairs (q < 2^9) or boundary residues
+    Residues,
+    /// all pairs of vectors (N = 2, tiny q); first operand's coordinate 0 fixed
+    AllPairs { a0: u64 },
+}
+
+#[derive(Serialize, Deserialize, Clone, Debug)]
+pub struct CCase {
+    pub k: usize,
+    pub q: u64,
+    pub part: CPart,
+}
+
+/// all single-modulus forms of the dyadic product must agree; returns the common value
+fn dyadic_all(a: &[u64], b: &[u64], m: &Modulus, steps: &mut u64) -> Result<Vec<u64>, CaseOut> {
+    let n = a.len();
+    let r = guard(|| {
+        let mut r1 = vec![0xDEADu64; n];
+        pm::dyadic_product(a, b, m, &mut r1);
+        let mut r2 = a.to_vec();
+        pm::dyadic_product_inplace(&mut r2, b, m);
+        let mut r3 = vec![0xDEADu64; n];
+        pm::dyadic_product_p(a, b, n, std::slice::from_ref(m), &mut r3);
+        let mut r4 = a.to_vec();
+        pm::dyadic_product_inplace_ps(&mut r4, b, 1, n, std::slice::from_ref(m));
+        (r1, r2, r3, r4)
+    });
+    *steps += 4;
+    match r {
+        Err(p) => Err(CaseOut::fail(format!("convolution:dyadic_product:panic:{}", panic_class(&p)), format!("no panic for reduced operands {} , {}", fmtv(a), fmtv(b)), p)),
+        Ok((r1, r2, r3, r4)) => {
+            if r1 != r2 || r1 != r3 || r1 != r4 {
+                return Err(CaseOut::fail(
+                    "convolution:dyadic_product:forms-differ",
+                    format!("dyadic_product, _inplace, _p, _inplace_ps agree on {} , {}", fmtv(a), fmtv(b)),
+                    format!("{} / {} / {} / {}", fmtv(&r1), fmtv(&r2), fmtv(&r3), fmtv(&r4)),
+                ));
+            }
+            Ok(r1)
+        }
+    }
+}
+
+/// NTT-domain product of a and b through the library, compared with `expected` (coefficient form)
+fn conv_check(run: &mut Run, m: &Modulus, class: &str, a: &[u64], fa: &[u64], b: &[u64], fb: &[u64], expected: &[u64]) -> Result<(), CaseOut> {
+    let q = run.q;
+    let mut steps = 0;
+    let prod = dyadic_all(fa, fb, m, &mut steps)?;
+    run.steps += steps;
+    if prod.iter().zip(fa.iter().zip(fb)).any(|(&p, (&x, &y))| p != mul_mod(x, y, q)) {
+        return Err(CaseOut::fail(
+            "convolution:dyadic_product:wrong",
+            format!("pointwise products modulo {q} of {} and {}", fmtv(fa), fmtv(fb)),
+            fmtv(&prod),
+        ));
+    }
+    let mut r = prod.clone();
+    let t = run.t;
+    if let Err(p) = guard(|| t.inverse_ntt_negacyclic_harvey(&mut r)) {
+        return Err(CaseOut::fail(format!("convolution:inverse:{class}:panic:{}", panic_class(&p)), "no panic", p));
+    }
+    run.steps += 1;
+    if r != expected {
+        return Err(CaseOut::fail(
+            format!("convolution:{class}:wrong"),
+            format!("N={} q={q}: intt(ntt(a) . ntt(b)) = a*b mod (X^N+1) = {} for a={} b={}", a.len(), fmtv(expected), fmtv(a), fmtv(b)),
+            fmtv(&r),
+        ));
+    }
+    Ok(())
+}
+
+fn check_convolution(c: &CCase, seed: u64) -> CaseOut {
+    let tag = h64(&(seed, c.k as u64, c.q, "convolution"));
+    he::env_real(seed, tag);
+    let (k, q) = (c.k, c.q);
+    let n = 1usize << k;
+    if !is_prime_u64(q) || (q - 1) % (2 * n as u64) != 0 {
+        return CaseOut::skip("modulus not a prime = 1 mod 2N");
+    }
+    let (m, t) = match build(k, q, tag) {
+        Ok(x) => x,
+        Err(e) => return build_fail("convolution", k, q, &e),
+    };
+    let out = fold((|| -> Result<CaseOut, CaseOut> {
+        let psi = t.root();
+        if psi != expected_root(n, q) {
+            return Err(CaseOut::fail("convolution:root:not-minimal", format!("N={n} q={q}: root {}", expected_root(n, q)), format!("{psi}")));
+        }
+        let ptab = rn::power_table(psi, n, q);
+        let mut run = Run::new("convolution", q, &t);
+        match &c.part {
+            CPart::UnitPairs { lo, hi } => {
+                // library transforms of every c*X^j (each also compared with the definition)
+                let mut fw: Vec<[Vec<u64>; 2]> = Vec::with_capacity(n);
+                for j in 0..n {
+                    let mut pair: [Vec<u64>; 2] = [vec![], vec![]];
+                    for (ci, cf) in [1u64, q - 1].into_iter().enumerate() {
+                        let mut x = vec![0u64; n];
+                        x[j] = cf;
+                        pair[ci] = run.tj(Fun::Fwd, "unit", &x, &rn::ntt_unit(j, cf, n, &ptab, q))?;
+                    }
+                    fw.push(pair);
+                }
+                for i in *lo..(*hi).min(n) {
+                    for j in 0..n {
+                        for (ci, cj) in [(0usize, 0usize), (1, 1), (0, 1)] {
+                            let (ca, cb) = ([1u64, q - 1][ci], [1u64, q - 1][cj]);
+                            let mut a = vec![0u64; n];
+                            a[i] = ca;
+                            let mut b = vec![0u64; n];
+                            b[j] = cb;
+                            // X^i * X^j = +-X^(i+j mod N)
+                            let mut e = vec![0u64; n];
+                            let coef = mul_mod(ca, cb, q);
+                            if i + j < n {
+                                e[i + j] = coef;
+                            } else {
+                                e[i + j - n] = neg_mod(coef, q);
+                            }
+                            if n <= 16 {
+                                assert_eq!(e, rp::pmul(&a, &b, q), "reference inconsistent: unit product");
+                            }
+                            conv_check(&mut run, &m, "unit-pair", &a, &fw[i][ci], &b, &fw[j][cj], &e)?;
+                        }
+                    }
+                }
+            }
+            CPart::Extremes => {
+                let vs = extreme_vectors(n, q, 1, seed);
+                let mut fs = vec![];
+                for (class, x) in &vs {
+                    fs.push(run.tj(Fun::Fwd, class, x, &rn::ntt_by_definition(x, &ptab, q))?);
+                }
+                // every extreme vector with itself, with the all-(q-1) vector and with the generic one
+                let pick: Vec<usize> = vs.iter().enumerate().filter(|(_, (cl, v))| *cl == "generic" || (*cl == "const" && v[0] == q - 1)).map(|(i, _)| i).collect();
+                for i in 0..vs.len() {
+                    let mut partners = pick.clone();
+                    partners.push(i);
+                    partners.sort();
+                    partners.dedup();
+                    for &j in &partners {
+                        let e = rn::negacyclic_mul(&vs[i].1, &vs[j].1, q);
+                        conv_check(&mut run, &m, "extreme-pair", &vs[i].1, &fs[i], &vs[j].1, &fs[j], &e)?;
+                        // and the transform of the reference product is the pointwise product
+                        let fe = run.tj(Fun::Fwd, "product", &e, &rn::ntt_by_definition(&e, &ptab, q))?;
+                        let pw: Vec<u64> = fs[i].iter().zip(&fs[j]).map(|(&x, &y)| mul_mod(x, y, q)).collect();
+                        if fe != pw {
+                            return Err(CaseOut::fail("convolution:homomorphism:wrong", format!("ntt(a*b) = ntt(a).ntt(b) = {}", fmtv(&pw)), fmtv(&fe)));
+                        }
+                    }
+                }
+            }
+            CPart::Shifts => {
+                let vs = extreme_vectors(n, q, 1, seed);
+                let shifts: Vec<usize> = if n <= 64 { (0..2 * n).collect() } else { vec![0, 1, 2, n / 2, n - 1, n, n + 1, n + n / 2, 2 * n - 1] };
+                let mut units: Vec<(&'static str, Vec<u64>)> = vec![];
+                for j in if n <= 64 { (0..n).collect::<Vec<_>>() } else { vec![0, 1, n / 2, n - 1] } {
+                    let mut u = vec![0u64; n];
+                    u[j] = 1;
+                    units.push(("unit", u));
+                }
+                for (_, a) in vs.iter().chain(units.iter()) {
+                    let fa = if n <= 64 { Some(run.tj(Fun::Fwd, "operand", a, &rn::ntt_by_definition(a, &ptab, q))?) } else { None };
+                    for &s in &shifts {
+                        let e = rp::pshift(a, s, q);
+                        let r = guard(|| {
+                            let mut r1 = vec![0xDEADu64; n];
+                            pm::negacyclic_shift(a, s, &m, &mut r1);
+                            let mut r2 = vec![0xDEADu64; n];
+                            pm::negacyclic_shift_p(a, s, n, std::slice::from_ref(&m), &mut r2);
+                            let mut r3 = vec![0xDEADu64; n];
+                            pm::negacyclic_shift_ps(a, s, 1, n, std::slice::from_ref(&m), &mut r3);
+                            (r1, r2, r3)
+                        });
+                        run.steps += 3;
+                        match r {
+                            Err(p) => return Err(CaseOut::fail(format!("convolution:negacyclic_shift:panic:{}", panic_class(&p)), format!("X^{s} * {} without panic", fmtv(a)), p)),
+                            Ok((r1, r2, r3)) => {
+                                if r1 != e || r2 != e || r3 != e {
+                                    return Err(CaseOut::fail(
+                                        "convolution:negacyclic_shift:wrong",
+                                        format!("N={n} q={q}: X^{s} * {} = {}", fmtv(a), fmtv(&e)),
+                                        format!("{} / _p {} / _ps {}", fmtv(&r1), fmtv(&r2), fmtv(&r3)),
+                                    ));
+                                }
+                            }
+                        }
+                        // monomial products c*X^s*a, c in {1, q-1, generic}
+                        for coef in [1u64, q - 1, h64(&(seed, s as u64, "mono")) % q] {
+                            let e2 = rp::pscale(&e, coef, q);
+                            let r = guard(|| {
+                                let mut r1 = vec![0xDEADu64; n];
+                                pm::negacyclic_multiply_mononomial(a, coef, s, &m, &mut r1);
+                                let mut r2 = a.to_vec();
+                                pm::negacyclic_multiply_mononomial_inplace(&mut r2, coef, s, &m);
+                                let mut r3 = vec![0xDEADu64; n];
+                                pm::negacyclic_multiply_mononomials_p(a, &[coef], s, n, std::slice::from_ref(&m), &mut r3);
+                                (r1, r2, r3)
+                            });
+                            run.steps += 3;
+                            match r {
+                                Err(p) => return Err(CaseOut::fail(format!("convolution:mononomial:panic:{}", panic_class(&p)), format!("{coef}*X^{s} * {} without panic", fmtv(a)), p)),
+                                Ok((r1, r2, r3)) => {
+                                    if r1 != e2 || r2 != e2 || r3 != e2 {
+                                        return Err(CaseOut::fail(
+                                            "convolution:mononomial:wrong",
+                                            format!("N={n} q={q}: {coef}*X^{s} * {} = {}", fmtv(a), fmtv(&e2)),
+                                            format!("{} / inplace {} / mononomials_p {}", fmtv(&r1), fmtv(&r2), fmtv(&r3)),
+                                        ));
+                                    }
+                                }
+                            }
+                        }
+                        // the same shift in the NTT domain
+                        if let Some(fa) = &fa {
+                            if s < n {
+                                let mut xs = vec![0u64; n];
+                                xs[s] = 1;
+                                let fx = run.tj(Fun::Fwd, "unit", &xs, &rn::ntt_unit(s, 1, n, &ptab, q))?;
+                                conv_check(&mut run, &m, "shift-as-product", a, fa, &xs, &fx, &e)?;
+                            }
+                        }
+                    }
+                }
+            }
+            CPart::Residues => {
+                let vals: Vec<u64> = if q < 512 {
+                    (0..q).collect()
+                } else {
+                    let mut v = vec![0, 1, 2, 3, q / 2 - 1, q / 2, q / 2 + 1, q - 3, q - 2, q - 1, (1u64 << 32).min(q - 1), ((1u64 << 32) - 1).min(q - 1), q / 3, 2 * (q / 3)];
+                    v.extend((0..50u64).map(|i| h64(&(seed, i, q, "res")) % q));
+                    v.sort();
+                    v.dedup();
+                    v
+                };
+                for &x in &vals {
+                    let a = vec![x; vals.len()];
+                    let mut steps = 0;
+                    let r = dyadic_all(&a, &vals, &m, &mut steps)?;
+                    run.steps += steps;
+                    for (i, &y) in vals.iter().enumerate() {
+                        if r[i] != mul_mod(x, y, q) {
+                            return Err(CaseOut::fail("convolution:dyadic_product:wrong", format!("{x}*{y} mod {q} = {}", mul_mod(x, y, q)), format!("{}", r[i])));
+                        }
+                    }
+                }
+            }
+            CPart::AllPairs { a0 } => {
+                if n != 2 || q > 64 || *a0 >= q {
+                    return Ok(CaseOut::skip("all-pairs only for N = 2, q < 64"));
+                }
+                // library transforms of all q^2 vectors
+                let mut fw: Vec<Vec<u64>> = Vec::with_capacity((q * q) as usize);
+                for x0 in 0..q {
+                    for x1 in 0..q {
+                        let x = [x0, x1];
+                        fw.push(run.tj(Fun::Fwd, "all-vectors-1q", &x, &rn::ntt_by_definition(&x, &ptab, q))?);
+                    }
+                }
+                for a1 in 0..q {
+                    let a = [*a0, a1];
+                    for b0 in 0..q {
+                        for b1 in 0..q {
+                            let b = [b0, b1];
+                            let e = rp::pmul(&a, &b, q);
+                            conv_check(&mut run, &m, "all-pairs", &a, &fw[(*a0 * q + a1) as usize], &b, &fw[(b0 * q + b1) as usize], &e)?;
+                        }
+                    }
+                }
+            }
+        }
+        Ok(CaseOut::pass(run.steps > 0, h64(&("conv", k, 64 - q.leading_zeros(), std::mem::discriminant(&c.part))), run.steps))
+    })());
+    vh::set_nt_draws(None);
+    out
+}
+
+// ------------------------------------------------------------------------------------------
+// section `wrappers`: _p / _ps forms
+// ------------------------------------------------------------------------------------------
+
+#[derive(Serialize, Deserialize, Clone, Debug)]
+pub struct WCase {
+    pub k: usize,
+    pub qs: Vec<u64>,
+    pub pcount: usize,
+}
+
+fn check_wrappers(c: &WCase, seed: u64) -> CaseOut {
+    let tag = h64(&(seed, c.k as u64, &c.qs, c.pcount as u64, "wrappers"));
+    he::env_real(seed, tag);
+    let k = c.k;
+    let n = 1usize << k;
+    if c.qs.is_empty() || c.pcount == 0 || c.qs.iter().any(|&q| !is_prime_u64(q) || (q - 1) % (2 * n as u64) != 0) {
+        return CaseOut::skip("moduli not primes = 1 mod 2N");
+    }
+    let mut ms = vec![];
+    let mut ts = vec![];
+    for &q in &c.qs {
+        match build(k, q, tag) {
+            Ok((m, t)) => {
+                ms.push(m);
+                ts.push(t);
+            }
+            Err(e) => return build_fail("wrappers", k, q, &e),
+        }
+    }
+    let l = c.qs.len();
+    let total = c.pcount * l * n;
+    let comp_q = |ci: usize| c.qs[ci % l];
+    let out = fold((|| -> Result<CaseOut, CaseOut> {
+        let mut steps = 0u64;
+        // operand arrays: component ci (polynomial ci / l, modulus ci % l) filled inside [0, mult*q)
+        let fill = |mult: u64, salt: &str| -> Vec<u64> {
+            (0..total)
+                .map(|idx| {
+                    let (ci, i) = (idx / n, idx % n);
+                    let r = mult * comp_q(ci);
+                    match (ci + i) % 5 {
+                        0 => r - 1,
+                        1 => 0,
+                        _ => h64(&(seed, idx as u64, salt)) % r,
+                    }
+                })
+                .collect()
+        };
+        type PsFn = fn(&mut [u64], usize, usize, &[NTTTables]);
+        type PFn = fn(&mut [u64], usize, &[NTTTables]);
+        type CFn = fn(&mut [u64], &NTTTables);
+        let forms: [(Fun, PsFn, PFn, CFn); 4] = [
+            (Fun::Fwd, pm::ntt_ps, pm::ntt_p, pm::ntt),
+            (Fun::FwdLazy, pm::ntt_lazy_ps, pm::ntt_lazy_p, pm::ntt_lazy),
+            (Fun::Inv, pm::intt_ps, pm::intt_p, pm::intt),
+            (Fun::InvLazy, pm::intt_lazy_ps, pm::intt_lazy_p, pm::intt_lazy),
+        ];
+        for (f, ps, p, cf) in forms {
+            for mult in [1, f.in_mult()] {
+                let x = fill(mult, f.name());
+                // direct method per component
+                let mut direct = x.clone();
+                for ci in 0..c.pcount * l {
+                    let t = &ts[ci % l];
+                    let sl = &mut direct[ci * n..(ci + 1) * n];
+                    guard(|| f.apply(t, sl)).map_err(|pn| CaseOut::fail(format!("wrappers:{}:panic:{}", f.name(), panic_class(&pn)), "no panic for operands in range", pn))?;
+                }
+                // against the definition (moderate N only; larger N is covered by `transform`)
+                if n <= 256 {
+                    for ci in 0..c.pcount * l {
+                        let q = comp_q(ci);
+                        let ptab = rn::power_table(ts[ci % l].root(), n, q);
+                        let xin = &x[ci * n..(ci + 1) * n];
+                        let reference = if f.forward() { rn::ntt_by_definition(xin, &ptab, q) } else { rn::intt_by_definition(xin, &ptab, q) };
+                        let o = &direct[ci * n..(ci + 1) * n];
+                        if o.iter().zip(&reference).any(|(&a, &b)| a >= f.out_mult() * q || a % q != b) {
+                            return Err(CaseOut::fail(
+                                format!("wrappers:{}:wrong", f.name()),
+                                format!("N={n} q={q} input {} -> {}", fmtv(xin), fmtv(&reference)),
+                                first_diff(o, &reference, q, f.out_mult()),
+                            ));
+                        }
+                    }
+                }
+                let r = guard(|| {
+                    let mut a = x.clone();
+                    ps(&mut a, c.pcount, n, &ts);
+                    let mut b = x.clone();
+                    for pi in 0..c.pcount {
+                        p(&mut b[pi * l * n..(pi + 1) * l * n], n, &ts);
+                    }
+                    let mut d = x.clone();
+                    for ci in 0..c.pcount * l {
+                        cf(&mut d[ci * n..(ci + 1) * n], &ts[ci % l]);
+                    }
+                    (a, b, d)
+                });
+                steps += 3;
+                match r {
+                    Err(pn) => return Err(CaseOut::fail(format!("wrappers:{}:forms:panic:{}", f.name(), panic_class(&pn)), format!("_ps/_p/component forms on {} polynomials x {} moduli without panic", c.pcount, l), pn)),
+                    Ok((a, b, d)) => {
+                        for (form, o) in [("_ps", &a), ("_p", &b), ("component", &d)] {
+                            if *o != direct {
+                                let at = o.iter().zip(&direct).position(|(x, y)| x != y).unwrap();
+                                return Err(CaseOut::fail(
+                                    format!("wrappers:{}:{form}:differs", f.name()),
+                                    format!("polysmallmod {form} form of {} equals the NTTTables method on every component ({} polynomials x moduli {:?}, N={n})", f.name(), c.pcount, c.qs),
+                                    format!("first difference at flat index {at} (component {}, coefficient {}): {} vs {}", at / n, at % n, o[at], direct[at]),
+                                ));
+                            }
+                        }
+                    }
+                }
+            }
+        }
+        // dyadic product, shift, monomial: _p / _ps against the component form
+        let x = fill(1, "dy-a");
+        let y = fill(1, "dy-b");
+        let shift = (h64(&(seed, tag, "shift")) % (2 * n as u64)) as usize;
+        let coeffs: Vec<u64> = (0..l).map(|i| h64(&(seed, i as u64, "mono-c")) % c.qs[i]).collect();
+        let r = guard(|| {
+            let mut comp = vec![vec![0u64; total]; 4];
+            for ci in 0..c.pcount * l {
+                let (lo, hi) = (ci * n, (ci + 1) * n);
+                let m = &ms[ci % l];
+                let (c0, rest) = comp.split_at_mut(1);
+                pm::dyadic_product(&x[lo..hi], &y[lo..hi], m, &mut c0[0][lo..hi]);
+                pm::negacyclic_shift(&x[lo..hi], shift, m, &mut rest[0][lo..hi]);
+                pm::negacyclic_multiply_mononomial(&x[lo..hi], coeffs[0], shift, m, &mut rest[1][lo..hi]);
+                pm::negacyclic_multiply_mononomial(&x[lo..hi], coeffs[ci % l], shift, m, &mut rest[2][lo..hi]);
+            }
+            let mut outs: Vec<(&'static str, usize, Vec<u64>)> = vec![];
+            let mut o = vec![0xDEADu64; total];
+            pm::dyadic_product_ps(&x, &y, c.pcount, n, &ms, &mut o);
+            outs.push(("dyadic_product_ps", 0, o));
+            let mut o = x.clone();
+            pm::dyadic_product_inplace_ps(&mut o, &y, c.pcount, n, &ms);
+            outs.push(("dyadic_product_inplace_ps", 0, o));
+            let mut o = x.clone();
+            for pi in 0..c.pcount {
+                let (lo, hi) = (pi * l * n, (pi + 1) * l * n);
+                pm::dyadic_product_inplace_p(&mut o[lo..hi], &y[lo..hi], n, &ms);
+            }
+            outs.push(("dyadic_product_inplace_p", 0, o));
+            let mut o = vec![0xDEADu64; total];
+            for pi in 0..c.pcount {
+                let (lo, hi) = (pi * l * n, (pi + 1) * l * n);
+                pm::dyadic_product_p(&x[lo..hi], &y[lo..hi], n, &ms, &mut o[lo..hi]);
+            }
+            outs.push(("dyadic_product_p", 0, o));
+            let mut o = vec![0xDEADu64; total];
+            pm::negacyclic_shift_ps(&x, shift, c.pcount, n, &ms, &mut o);
+            outs.push(("negacyclic_shift_ps", 1, o));
+            let mut o = vec![0xDEADu64; total];
+            pm::negacyclic_multiply_mononomial_ps(&x, coeffs[0], shift, c.pcount, n, &ms, &mut o);
+            outs.push(("negacyclic_multiply_mononomial_ps", 2, o));
+            let mut o = x.clone();
+            pm::negacyclic_multiply_mononomial_inplace_ps(&mut o, coeffs[0], shift, c.pcount, n, &ms);
+            outs.push(("negacyclic_multiply_mononomial_inplace_ps", 2, o));
+            let mut o = vec![0xDEADu64; total];
+            pm::negacyclic_multiply_mononomials_ps(&x, &coeffs, shift, c.pcount, n, &ms, &mut o);
+            outs.push(("negacyclic_multiply_mononomials_ps", 3, o));
+            let mut o = x.clone();
+            pm::negacyclic_multiply_mononomials_inplace_ps(&mut o, &coeffs, shift, c.pcount, n, &ms);
+            outs.push(("negacyclic_multiply_mononomials_inplace_ps", 3, o));
+            (comp, outs)
+        });
+        match r {
+            Err(pn) => return Err(CaseOut::fail(format!("wrappers:pointwise:panic:{}", panic_class(&pn)), "no panic for reduced operands", pn)),
+            Ok((comp, outs)) => {
+                // component forms against the reference
+                for ci in 0..c.pcount * l {
+                    let (lo, hi) = (ci * n, (ci + 1) * n);
+                    let q = comp_q(ci);
+                    let e0: Vec<u64> = x[lo..hi].iter().zip(&y[lo..hi]).map(|(&a, &b)| mul_mod(a, b, q)).collect();
+                    let e1 = rp::pshift(&x[lo..hi], shift, q);
+                    let e2 = rp::pscale(&e1, coeffs[0] % q, q);
+                    let e3 = rp::pscale(&e1, coeffs[ci % l], q);
+                    for (name, e, o) in [("dyadic_product", &e0, &comp[0][lo..hi]), ("negacyclic_shift", &e1, &comp[1][lo..hi]), ("negacyclic_multiply_mononomial", &e2, &comp[2][lo..hi]), ("negacyclic_multiply_mononomial", &e3, &comp[3][lo..hi])] {
+                        steps += 1;
+                        if o != &e[..] {
+                            return Err(CaseOut::fail(format!("wrappers:{name}:wrong"), format!("N={n} q={q} shift={shift}: {}", fmtv(e)), fmtv(o)));
+                        }
+                    }
+                }
+                for (name, which, o) in outs {
+                    steps += 1;
+                    if o != comp[which] {
+                        let at = o.iter().zip(&comp[which]).position(|(x, y)| x != y).unwrap();
+                        return Err(CaseOut::fail(
+                            format!("wrappers:{name}:differs"),
+                            format!("{name} equals the component form on every component ({} polynomials x moduli {:?}, N={n}, shift {shift})", c.pcount, c.qs),
+                            format!("first difference at flat index {at} (component {}, coefficient {}): {} vs {}", at / n, at % n, o[at], comp[which][at]),
+                        ));
+                    }
+                }
+            }
+        }
+        Ok(CaseOut::pass(true, h64(&("wrappers", k, l, c.pcount)), steps))
+    })());
+    vh::set_nt_draws(None);
+    out
+}
+
+// ------------------------------------------------------------------------------------------
+// section `roots`: determinism of the root under every random draw
+// ------------------------------------------------------------------------------------------
+
+#[derive(Serialize, Deserialize, Clone, Debug)]
+pub struct RCase {
+    pub k: usize,
+    pub q: u64,
+    /// first draws lo..hi
+    pub lo: u64,
+    pub hi: u64,
+    /// false: every first draw; true: for every failing first draw in lo..hi every second draw in [0,q)
+    pub pairs: bool,
+}
+
+fn check_roots(c: &RCase, seed: u64) -> CaseOut {
+    let tag = h64(&(seed, c.k as u64, c.q, "roots"));
+    he::env_real(seed, tag);
+    let (k, q) = (c.k, c.q);
+    let n = 1usize << k;
+    if !is_prime_u64(q) || (q - 1) % (2 * n as u64) != 0 || q >= 1 << 20 {
+        return CaseOut::skip("modulus not a small prime = 1 mod 2N");
+    }
+    let m = match guard(|| {
+        vh::set_nt_draws(Some(filler(tag, 64)));
+        Modulus::new(q)
+    }) {
+        Ok(m) => m,
+        Err(p) => return CaseOut::fail(format!("roots:modulus:panic:{}", panic_class(&p)), format!("Modulus::new({q})"), p),
+    };
+    let expected = expected_root(n, q);
+    let e = (q - 1) / (2 * n as u64);
+    // reference: the draw d yields the candidate d^e; it is accepted iff candidate^N = -1
+    let cand = |d: u64| pow_mod(d % q, e, q);
+    let accepted = |d: u64| d % q != 0 && pow_mod(cand(d), n as u64, q) == q - 1;
+    let pad: Vec<u64> = (2..100u64).collect();
+    let mut steps = 0u64;
+    let mut max_draws = 0usize;
+    let mut fails = 0u64;
+
+    let mut one = |script_head: &[u64]| -> Result<(), CaseOut> {
+        let mut script = script_head.to_vec();
+        script.extend_from_slice(&pad);
+        let used = script.iter().position(|&d| accepted(d)).map(|p| p + 1);
+        let Some(used) = used else {
+            return Ok(()); // no draw of the script succeeds: not enumerated (see assumptions)
+        };
+        let first_ok = script[used - 1];
+        // (a) the table constructor
+        let s1 = script.clone();
+        let r = guard(|| {
+            vh::set_nt_draws(Some(s1));
+            let r = NTTTables::new(k, &m).map(|t| (t.root(), t.get_root_powers().get(n / 2).map(|o| o.operand).unwrap_or(0))).map_err(|e| e.to_string());
+            (r, vh::nt_draw_log())
+        });
+        steps += 1;
+        match r {
+            Err(p) => return Err(CaseOut::fail(format!("roots:construct:panic:{}", panic_class(&p)), format!("N={n} q={q} draws {:?}..: NTTTables::new succeeds", &script[..2]), p)),
+            Ok((Err(e), _)) => return Err(CaseOut::fail("roots:construct:refused", format!("N={n} q={q} draws {:?}..: NTTTables::new succeeds", &script[..2]), e)),
+            Ok((Ok((root, psi1)), log)) => {
+                if log.len() != used || log[..] != script[..used] {
+                    return Err(CaseOut::fail(
+                        "roots:draw-script-not-followed",
+                        format!("N={n} q={q}: try_primitive_root consumes exactly the draws {:?} (the first accepted one is {first_ok})", &script[..used]),
+                        format!("{log:?}"),
+                    ));
+                }
+                if root != expected || psi1 != expected {
+                    return Err(CaseOut::fail(
+                        "roots:root-depends-on-draw",
+                        format!("N={n} q={q}: root() = {expected} (minimal primitive 2N-th root) whatever the random draws; draws {:?}", &script[..used]),
+                        format!("root() = {root}, root_powers[N/2] = {psi1}"),
+                    ));
+                }
+            }
+        }
+        // (b) the two number-theory routines themselves
+        let s2 = script.clone();
+        let r = guard(|| {
+            vh::set_nt_draws(Some(s2.clone()));
+            let mut any = 0u64;
+            let ok_any = hu::try_primitive_root(2 * n as u64, &m, &mut any);
+            vh::set_nt_draws(Some(s2));
+            let mut min = 0u64;
+            let ok_min = hu::try_minimal_primitive_root(2 * n as u64, &m, &mut min);
+            (ok_any, any, ok_min, min, hu::is_primitive_root(any, 2 * n as u64, &m))
+        });
+        steps += 2;
+        match r {
+            Err(p) => return Err(CaseOut::fail(format!("roots:try_primitive_root:panic:{}", panic_class(&p)), "no panic", p)),
+            Ok((ok_any, any, ok_min, min, isp)) => {
+                if !ok_any || any != cand(first_ok) || !isp {
+                    return Err(CaseOut::fail(
+                        "roots:try_primitive_root:wrong",
+                        format!("N={n} q={q} draws {:?}: true, {} = {first_ok}^((q-1)/2N), primitive", &script[..used], cand(first_ok)),
+                        format!("{ok_any}, {any}, is_primitive_root={isp}"),
+                    ));
+                }
+                if !ok_min || min != expected {
+                    return Err(CaseOut::fail(
+                        "roots:try_minimal_primitive_root:wrong",
+                        format!("N={n} q={q} draws {:?}: true, {expected}", &script[..used]),
+                        format!("{ok_min}, {min}"),
+                    ));
+                }
+            }
+        }
+        max_draws = max_draws.max(used);
+        Ok(())
+    };
+
+    let res = (|| -> Result<(), CaseOut> {
+        for r1 in c.lo..c.hi.min(q) {
+            if !c.pairs {
+                one(&[r1])?;
+                if !accepted(r1) {
+                    fails += 1;
+                }
+            } else if !accepted(r1) {
+                fails += 1;
+                for r2 in 0..q {
+                    one(&[r1, r2])?;
+                }
+            }
+        }
+        if !c.pairs && c.lo == 0 {
+            // raw draws above the modulus (the routine reduces them)
+            for raw in [q, q + 1, 2 * q - 1, 2 * q + 3, 1 << 63, u64::MAX, u64::MAX - q, u64::MAX - 1] {
+                one(&[raw])?;
+            }
+        }
+        Ok(())
+    })();
+    vh::set_nt_draws(None);
+    match res {
+        Err(o) => o,
+        Ok(()) => CaseOut::pass(steps > 0, h64(&("roots", k, c.pairs, max_draws, fails > 0)), steps),
+    }
+}
+
+// ------------------------------------------------------------------------------------------
+// section `contexts`
+// ------------------------------------------------------------------------------------------
+
+#[derive(Serialize, Deserialize, Clone, Debug)]
+pub struct XCase {
+    pub spec: ParamSpec,
+}
+
+/// (level, modulus value, table fingerprint, transform of a fixed vector) for every table of a context
+fn context_tables(spec: &ParamSpec, seed: u64, tag: u64, probe_seed: u64) -> Result<Vec<(String, u64, u64, u64, u64)>, String> {
+    guard(|| {
+        he::env_real(seed, tag);
+        vh::set_nt_draws(Some(filler(tag, 1 << 14)));
+        let ctx = spec.context();
+        if !ctx.parameters_set() {
+            return Err("parameters not set".to_string());
+        }
+        let mut out = vec![];
+        let mut level = ctx.key_context_data();
+        let mut first = true;
+        while let Some(cd) = level {
+            let name = if first { "key".to_string() } else { format!("chain{}", cd.chain_index()) };
+            let mods: Vec<u64> = cd.parms().coeff_modulus().iter().map(|m| m.value()).collect();
+            let mut tabs: Vec<(String, u64, &NTTTables)> = cd.small_ntt_tables().iter().zip(&mods).enumerate().map(|(i, (t, &q))| (format!("{name}/q{i}"), q, t)).collect();
+            if spec.scheme != Scheme::CKKS && cd.qualifiers().using_batching {
+                tabs.push((format!("{name}/plain"), spec.t, cd.plain_ntt_tables()));
+            }
+            for (nm, q, t) in tabs {
+                let n = t.coeff_count();
+                let x: Vec<u64> = (0..n as u64).map(|i| h64(&(probe_seed, i, q)) % q).collect();
+                let mut y = x.clone();
+                t.ntt_negacyclic_harvey(&mut y);
+                let mut z = y.clone();
+                t.inverse_ntt_negacyclic_harvey(&mut z);
+                if z != x {
+                    return Err(format!("{nm}: round trip of a generic vector fails"));
+                }
+                out.push((nm, q, t.root(), fingerprint(t), h64(&y)));
+            }
+            level = if first { ctx.first_context_data() } else { cd.next_context_data() };
+            first = false;
+        }
+        Ok(out)
+    })
+    .unwrap_or_else(|p| Err(format!("panic: {p}")))
+}
+
+fn check_contexts(c: &XCase, seed: u64) -> CaseOut {
+    let tag = h64(&(seed, &c.spec, "contexts"));
+    let n = c.spec.n;
+    let k = n.trailing_zeros() as usize;
+    let a = context_tables(&c.spec, seed, tag, seed);
+    let b = context_tables(&c.spec, seed ^ 0xABCD_EF01, tag.rotate_left(17) ^ 0x1234_5678, seed);
+    vh::set_nt_draws(None);
+    let (a, b) = match (a, b) {
+        (Ok(a), Ok(b)) => (a, b),
+        (Err(e), Err(_)) if e == "parameters not set" => return CaseOut::skip("parameter set rejected by the library"),
+        (a, b) => {
+            let msg = format!("{:?} / {:?}", a.as_ref().err(), b.as_ref().err());
+            return CaseOut::fail(
+                format!(
+                    "contexts:{}",
+                    if msg.contains("panic") {
+                        format!("construct:panic:{}", panic_class(&msg))
+                    } else if msg.contains("round trip") {
+                        "roundtrip:wrong".to_string()
+                    } else {
+                        "construct:differs".into()
+                    }
+                ),
+                format!("{}: both constructions succeed and intt(ntt(x)) = x on every table", c.spec.label()),
+                msg,
+            );
+        }
+    };
+    let mut steps = 0u64;
+    if a != b {
+        let at = a.iter().zip(&b).position(|(x, y)| x != y);
+        return CaseOut::fail(
+            "contexts:tables-differ",
+            format!("{}: two independently constructed contexts hold identical NTT tables and transform identically", c.spec.label()),
+            format!("first difference: {:?} vs {:?} (counts {} / {})", at.map(|i| &a[i]), at.map(|i| &b[i]), a.len(), b.len()),
+        );
+    }
+    for (nm, q, root, fp, img) in &a {
+        steps += 2;
+        if !is_prime_u64(*q) {
+            continue; // composite (plain) modulus: outside the domain
+        }
+        let exp = expected_root(n, *q);
+        if *root != exp {
+            return CaseOut::fail("contexts:root:not-minimal", format!("{} {nm} q={q}: root {exp}", c.spec.label()), format!("{root}"));
+        }
+        // a directly constructed table is the same object
+        match build(k, *q, tag ^ 0x77) {
+            Err(e) => return build_fail("contexts", k, *q, &e),
+            Ok((_, t)) => {
+                let x: Vec<u64> = (0..n as u64).map(|i| h64(&(seed, i, *q)) % *q).collect();
+                let mut y = x.clone();
+                let _ = guard(|| t.ntt_negacyclic_harvey(&mut y));
+                if fingerprint(&t) != *fp || h64(&y) != *img {
+                    return CaseOut::fail(
+                        "contexts:direct-table-differs",
+                        format!("{} {nm} q={q}: NTTTables::new gives the context's table and the same transform", c.spec.label()),
+                        format!("fingerprints {:016x} vs {fp:016x}, images {:016x} vs {img:016x}", fingerprint(&t), h64(&y)),
+                    );
+                }
+            }
+        }
+    }
+    vh::set_nt_draws(None);
+    CaseOut::pass(true, h64(&("contexts", a.len(), k)), steps)
+}
+
+// ------------------------------------------------------------------------------------------
+// enumeration
+// ------------------------------------------------------------------------------------------
+
+pub fn sections(cfg: &RunCfg) -> Vec<Box<dyn AnySection>> {
+    let seed = cfg.seed;
+    let thorough = cfg.thorough();
+    let mut v: Vec<Box<dyn AnySection>> = vec![];
+
+    // ---- transform
+    let kmax = if thorough { 13 } else { 10 };
+    let kmax_sparse = if thorough { 17 } else { 14 };
+    let mut cases: Vec<TCase> = vec![];
+    for k in 1..=kmax_sparse {
+        let n = 1usize << k;
+        for q in moduli_for(k) {
+            cases.push(TCase { k, q, part: TPart::Tables });
+            if k <= kmax + 1 {
+                cases.push(TCase { k, q, part: TPart::Extremes });
+            }
+            if k > kmax {
+                cases.push(TCase { k, q, part: TPart::UnitsSparse });
+                continue;
+            }
+            // blocks of unit vectors: about 2^19 butterflies per transform call batch
+            let block = ((1usize << 19) / (n * k)).clamp(1, n);
+            let mut lo = 0;
+            while lo < n {
+                cases.push(TCase { k, q, part: TPart::Units { lo, hi: (lo + block).min(n) } });
+                lo += block;
+            }
+        }
+    }
+    v.push(
+        E1::new(
+            "transform",
+            &format!(
+                "N = 2^k, k = 1..{kmax} (k = {}..{kmax_sparse}: table data and the unit vectors at 0..3, 2^i-1, 2^i, 2^i+1, N-2, N-1 only; extreme vectors up to k = {}); q in {{two smallest primes = 1 mod 2N, largest such prime of 13,20,30,40,50,59,60,61 bits}}; table data (root minimal, root / inverse-root table orders and quotients, 1/N, second construction, refusal of unsupported degree); all N unit vectors x coefficients {{1, q-1 (k < 12), 2q-1 (inverse), 4q-1 (forward)}} x 4 transforms + round trips; extreme vectors (constants 1, q-1, q, q+1, 2q-1, 2q, 2q+1, 3q, range maximum; alternating; halves; ramp; generic; near-top) in [0,q), [0,2q), [0,4q)",
+                kmax + 1,
+                kmax + 1
+            ),
+            cases.into_iter(),
+            move |c: &TCase| check_transform(c, seed),
+        )
+        .deadline(std::time::Duration::from_secs(120))
+        .share(0.65),
+    );
+
+    // ---- full
+    let fcs = full_cases(thorough);
+    v.push(
+        E1::new(
+            "full",
+            &format!(
+                "every vector: N=2 x every prime q = 1 mod 4 below {} in [0,q)^2, [0,2q)^2, [0,4q)^2; N=4: q=17 (all three ranges), q=41 [0,q){}; every vector over the boundary alphabet {{0,1,q-1,q,R-1}}^N (N=2,4{}), {{0,1,R-1}}^8, {{0,R-1}}^16 for R in {{q,2q,4q}} and every modulus of the `transform` list",
+                if thorough { 256 } else { 128 },
+                if thorough { ", q=41 [0,2q), q=73 [0,q)" } else { "" },
+                if thorough { ",8" } else { "" }
+            ),
+            fcs.into_iter(),
+            move |c: &FCase| check_full(c, seed),
+        )
+        .deadline(std::time::Duration::from_secs(120))
+        .share(0.4),
+    );
+
+    // ---- convolution
+    let ckmax_units = if thorough { 8 } else { 7 };
+    let ckmax = if thorough { 13 } else { 10 };
+    let mut cases: Vec<CCase> = vec![];
+    for k in 1..=ckmax {
+        let n = 1usize << k;
+        for q in moduli_for(k) {
+            cases.push(CCase { k, q, part: CPart::Residues });
+            cases.push(CCase { k, q, part: CPart::Extremes });
+            cases.push(CCase { k, q, part: CPart::Shifts });
+            if k <= ckmax_units {
+                let block = ((1usize << 17) / (n * n * k)).clamp(1, n);
+                let mut lo = 0;
+                while lo < n {
+                    cases.push(CCase { k, q, part: CPart::UnitPairs { lo, hi: (lo + block).min(n) } });
+                    lo += block;
+                }
+            }
+        }
+    }
+    for q in [5u64, 13, 17, 29, 37, 41, 53, 61] {
+        if q <= 29 || thorough {
+            for a0 in 0..q {
+                cases.push(CCase { k: 1, q, part: CPart::AllPairs { a0 } });
+            }
+        }
+    }
+    v.push(
+        E1::new(
+            "convolution",
+            &format!(
+                "same (N,q) as `transform` up to k={ckmax}: dyadic_product (4 forms) on all residue pairs (q<512) / boundary residues; all pairs of unit vectors x coefficients {{1,q-1}} for k <= {ckmax_units}; extreme operand pairs; negacyclic_shift / monomial products for every shift 0..2N (N <= 64, boundary shifts above); all pairs of vectors for N=2, q in {}",
+                if thorough { "{5,13,17,29,37,41,53,61}" } else { "{5,13,17,29}" }
+            ),
+            cases.into_iter(),
+            move |c: &CCase| check_convolution(c, seed),
+        )
+        .deadline(std::time::Duration::from_secs(120))
+        .share(0.5),
+    );
+
+    // ---- wrappers
+    let mut cases: Vec<WCase> = vec![];
+    for k in 1..=(if thorough { 12 } else { 9 }) {
+        let ms = moduli_for(k);
+        let big: Vec<u64> = ms.iter().rev().take(3).copied().collect();
+        let small: Vec<u64> = ms.iter().take(2).copied().collect();
+        for qs in [vec![ms[0]], small.clone(), big.clone(), ms.clone()] {
+            for pcount in [1usize, 2, 3] {
+                cases.push(WCase { k, qs: qs.clone(), pcount });
+            }
+        }
+    }
+    v.push(E1::new(
+        "wrappers",
+        "polysmallmod ntt/ntt_lazy/intt/intt_lazy, dyadic_product*, negacyclic_shift*, negacyclic_multiply_mononomial(s)* in component, _p and _ps form: 1..3 polynomials x {1 modulus, 2 smallest, 3 largest, all} moduli of the `transform` list, operands at the range maxima and generic",
+        cases.into_iter(),
+        move |c: &WCase| check_wrappers(c, seed),
+    ));
+
+    // ---- roots
+    let qmax_first: u64 = if thorough { 1 << 14 } else { 1 << 12 };
+    let qmax_pairs: u64 = if thorough { 3 << 9 } else { 1 << 9 };
+    let mut cases: Vec<RCase> = vec![];
+    for q in (5..qmax_first).filter(|&q| q % 4 == 1 && is_prime_u64(q)) {
+        let mut k = 1;
+        while (q - 1) % (2u64 << k) == 0 {
+            cases.push(RCase { k, q, lo: 0, hi: q, pairs: false });
+            if q < qmax_pairs {
+                let mut lo = 0;
+                while lo < q {
+                    cases.push(RCase { k, q, lo, hi: (lo + 128).min(q), pairs: true });
+                    lo += 128;
+                }
+            }
+            k += 1;
+        }
+    }
+    cases.sort_by_key(|c| (c.pairs, c.q, c.k, c.lo));
+    v.push(
+        E1::new(
+            "roots",
+            &format!(
+                "every prime q < {qmax_first} and every N with 2N | q-1: every first draw r in [0,q) (+ raw draws >= q); for q < {qmax_pairs}: every (failing first draw, second draw in [0,q)); NTTTables::new, try_primitive_root, try_minimal_primitive_root"
+            ),
+            cases.into_iter(),
+            move |c: &RCase| check_roots(c, seed),
+        )
+        .deadline(std::time::Duration::from_secs(120)),
+    );
+
+    // ---- contexts
+    let mut cases: Vec<XCase> = vec![];
+    for k in 1..=(if thorough { 12 } else { 10 }) {
+        let n = 1usize << k;
+        let small = moduli_for(k)[0];
+        let small2 = moduli_for(k)[1];
+        let mut sets: Vec<(Scheme, Vec<u64>, u64)> = vec![];
+        let tb = he::ntt_primes(n, 20.max(k + 3), 1)[0];
+        sets.push((Scheme::BFV, he::chain(n, &[30, 30, 31]), tb));
+        sets.push((Scheme::BGV, he::chain(n, &[40, 59, 60]), tb));
+        sets.push((Scheme::CKKS, he::chain(n, &[40, 40, 50]), 0));
+        sets.push((Scheme::BFV, he::chain(n, &[60, 60]), small));
+        sets.push((Scheme::BFV, vec![he::ntt_primes(n, 59, 1)[0]], small2));
+        for (s, q, t) in sets {
+            cases.push(XCase { spec: ParamSpec::new(s, n, q, t) });
+        }
+    }
+    v.push(E1::new(
+        "contexts",
+        "N = 2..2^10 (2^12 thorough) x 5 parameter sets (BFV/BGV/CKKS, 1..3 primes of 30..61 bits, batching plain moduli): every level's coefficient and plain tables of two contexts built under different scripted entropy/draws and of a direct NTTTables::new are identical, roots minimal, same image of a generic vector",
+        cases.into_iter(),
+        move |c: &XCase| check_contexts(c, seed),
+    ));
+    v
 }
